@@ -21,6 +21,7 @@ func init() {
 			{ID: "C07-R5", Doc: "buffered remainder drained before next batch", Run: c07r5},
 			{ID: "C07-R6", Doc: "every batch is decoded into a frame of exactly the decoded length, which is validated", Run: c07r6},
 			{ID: "C11-R1", Doc: "the frame hands codecs and gob exactly the view's rows (offset-translated bounds) (shared)", Run: c11r1},
+			{ID: "C11-R6", Doc: "the scratch frame sized with Ensure(n) has exactly n rows (shared)", Run: c11r6},
 		},
 	})
 }
@@ -234,6 +235,64 @@ func c07r1(c *RC) {
 	}
 	checkBranch(w, eops, "enc")
 	checkBranch(d, wireOps(pr, d, false), "dec")
+	// after a column's flag message exactly one value message follows on every
+	// path that goes on to the next column or to the checksum (error returns
+	// aside): the two sides stay in step for every batch, the empty one included
+	oneValue := func(fn *Func, ops []wireOp) {
+		fl := pr.Flow(fn)
+		fq := fn.QName()
+		var flagOp *wireOp
+		isValue := map[*ast.CallExpr]bool{}
+		isMarker := map[*ast.CallExpr]bool{}
+		for i := range ops {
+			o := &ops[i]
+			switch {
+			case o.kind == "scalar:bool":
+				flagOp = o
+				isMarker[o.call] = true
+			case o.kind == "codec-col" || o.kind == "gob-col":
+				isValue[o.call] = true
+			case strings.HasPrefix(o.kind, "scalar:"):
+				isMarker[o.call] = true
+			}
+		}
+		if flagOp == nil {
+			c.Undecide("%s: no per-column flag message found", fq)
+			return
+		}
+		loc, ok := fl.LocOf(flagOp.call)
+		if !ok {
+			c.Undecide("%s: flag message not in the flow graph", fq)
+			return
+		}
+		skipped := false
+		var trail []string
+		fl.Walk(Loc{loc.B, loc.I + 1}, "", nil, Visitor{NoFacts: true,
+			Node: func(n ast.Node, x string, s *Step) (string, bool) {
+				hit, mark := false, false
+				for _, k := range callsIn(n) {
+					if isValue[k] {
+						hit = true
+					}
+					if isMarker[k] {
+						mark = true
+					}
+				}
+				if hit {
+					return x, true
+				}
+				if mark {
+					skipped = true
+					trail = s.Trail()
+					return x, true
+				}
+				return x, false
+			}})
+		c.Check(!skipped, fq+"|one-value-message-per-column", pr.Pos(flagOp.call.Pos()),
+			"after a column's codec flag, the next column's flag or the batch checksum can be reached without a value message for the column having been written/read: for such a batch (e.g. an empty one) the other side, which always transfers one, consumes the following message instead and the stream goes out of step", trail...)
+	}
+	oneValue(w, eops)
+	oneValue(d, wireOps(pr, d, false))
 	// encoder: the flag is f.HasCodec(col)
 	okFlag := false
 	ast.Inspect(w.Body, func(n ast.Node) bool {
@@ -283,7 +342,14 @@ func c07r2(c *RC) {
 		var teeArg string
 		for _, call := range callsIn(fn.Body) {
 			if fn.Pkg.CalleeName(call) == spec.tee {
+				args := append([]ast.Expr{}, call.Args...)
+				// the checksum may be one of several writers fed through io.MultiWriter
 				for _, a := range call.Args {
+					if mw, ok := ast.Unparen(a).(*ast.CallExpr); ok && fn.Pkg.CalleeName(mw) == "io.MultiWriter" {
+						args = append(args, mw.Args...)
+					}
+				}
+				for _, a := range args {
 					tv := fn.Pkg.Info.Types[a]
 					if tv.Type != nil && strings.Contains(typeString(tv.Type), "hash.Hash32") {
 						teeArg = expr(a)
@@ -515,11 +581,11 @@ func c07r4(c *RC) {
 	sticky := ""
 	if len(r.Body.List) > 0 {
 		if ifs, ok := r.Body.List[0].(*ast.IfStmt); ok {
-			if be, ok := ast.Unparen(ifs.Cond).(*ast.BinaryExpr); ok && be.Op == token.NEQ && expr(be.Y) == "nil" {
+			if tx, nonNil, ok := nilTest(ifs.Cond); ok && nonNil {
 				for _, st := range ifs.Body.List {
-					if ret, ok := st.(*ast.ReturnStmt); ok && len(ret.Results) == 2 && expr(ret.Results[1]) == expr(be.X) {
+					if ret, ok := st.(*ast.ReturnStmt); ok && len(ret.Results) == 2 && expr(ret.Results[1]) == tx {
 						if v, ok := constInt(r.Pkg, ret.Results[0]); ok && v == 0 {
-							sticky = expr(be.X)
+							sticky = tx
 						}
 					}
 				}
@@ -646,6 +712,64 @@ func c07r4(c *RC) {
 		}
 	}
 	c.Check(okConv, rq+"|EOF-only-at-batch-boundary", pr.Pos(r.Body.Pos()), "io.EOF is converted to the end-of-stream sentinel elsewhere than directly after the batch-length decode")
+	// gob reports io.EOF for the length message also when the stream ends right
+	// after a damaged message header: the conversion to the clean sentinel must
+	// additionally sit on the edge of a test that the decode consumed no input
+	// (a consumed-bytes counter of the reader compared with its value saved
+	// before the decode)
+	if nEOF == 1 {
+		var conv *ast.AssignStmt
+		ast.Inspect(r.Body, func(nd ast.Node) bool {
+			if a, ok := nd.(*ast.AssignStmt); ok && len(a.Lhs) == 1 && len(a.Rhs) == 1 && expr(a.Lhs[0]) == sticky && expr(a.Rhs[0]) == "EOF" {
+				conv = a
+			}
+			return true
+		})
+		nothingRead := false
+		for _, anc := range pathTo(r.Body, conv) {
+			ifs, ok := anc.(*ast.IfStmt)
+			if !ok {
+				continue
+			}
+			// locals saved from a reader field before the decode
+			saved := map[string]string{}
+			ast.Inspect(r.Body, func(m ast.Node) bool {
+				if a, ok := m.(*ast.AssignStmt); ok && a.Tok == token.DEFINE && len(a.Lhs) == 1 && len(a.Rhs) == 1 && a.Pos() < ifs.Pos() {
+					t := strings.TrimPrefix(canon(r, a.Rhs[0]), "*")
+					if strings.HasPrefix(t, "$recv.") {
+						saved[expr(a.Lhs[0])] = t
+					}
+				}
+				return true
+			})
+			inThen := ifs.Body.Pos() <= conv.Pos() && conv.End() <= ifs.Body.End()
+			vEq, known := evalCond(ifs.Cond, func(e ast.Expr) (bool, bool) {
+				be, ok := ast.Unparen(e).(*ast.BinaryExpr)
+				if !ok || (be.Op != token.EQL && be.Op != token.NEQ) {
+					return false, false
+				}
+				l, rr := strings.TrimPrefix(canon(r, be.X), "*"), strings.TrimPrefix(canon(r, be.Y), "*")
+				if saved[expr(be.Y)] == l && l != "" || saved[expr(be.X)] == rr && rr != "" {
+					return be.Op == token.EQL, true
+				}
+				return false, false
+			})
+			if known && vEq == inThen {
+				nothingRead = true
+			}
+		}
+		c.Check(nothingRead, rq+"|clean-end-only-if-nothing-was-consumed", pr.Pos(conv.Pos()),
+			"io.EOF from the batch-length decode becomes the clean end-of-stream without a test that the decode consumed no input: gob also returns io.EOF when the stream ends right after a damaged message header, so a single flipped bit in a length prefix ends the stream early with no error and the remaining rows are silently lost")
+	}
+	// decode never panics on what it finds in the stream
+	var pan []string
+	for _, k := range callsIn(d.Body) {
+		if !d.Pkg.mayReturn(k) {
+			pan = append(pan, pr.Pos(k.Pos()))
+		}
+	}
+	c.Check(len(pan) == 0, dq+"|stream-content-never-panics", pr.Pos(d.Body.Pos()),
+		"decode panics on a condition that depends on the bytes of the stream ("+strings.Join(pan, ", ")+"): a damaged stream crashes the reader instead of failing with an error")
 }
 
 func c07r5(c *RC) {
@@ -785,8 +909,14 @@ func c07r6(c *RC) {
 				return x, false
 			}
 			nonneg := false
-			if expr(be.X) == nVar && expr(be.Y) == "0" {
-				nonneg = be.Op == token.LSS && from.Succs[1] == to || be.Op == token.GEQ && from.Succs[0] == to
+			op := be.Op
+			l, r := expr(be.X), expr(be.Y)
+			if l == "0" && r == nVar { // mirrored spelling
+				l, r = r, l
+				op = map[token.Token]token.Token{token.LSS: token.GTR, token.GTR: token.LSS, token.LEQ: token.GEQ, token.GEQ: token.LEQ}[op]
+			}
+			if l == nVar && r == "0" {
+				nonneg = op == token.LSS && from.Succs[1] == to || op == token.GEQ && from.Succs[0] == to
 			}
 			if nonneg && !strings.Contains(x, "#nonneg") {
 				if x == "" {
@@ -849,6 +979,76 @@ func c07r6(c *RC) {
 	c.Floor("decode calls", ndec, 2)
 	c.Check(!bad, rq+"|decode-target-has-batch-length", pr.Pos(lenDecode.Pos()),
 		fmt.Sprintf("decode is handed %s, which on some path was not (re)sized to the decoded batch length %s: a reused, longer buffer delivers rows that were never written", badExpr, nVar), trail...)
+	// decoding straight into the caller's frame happens only when the batch fits
+	// the frame's *length* (the rows of the view), not merely its capacity
+	{
+		fP := ""
+		if r.Type.Params != nil {
+			last := r.Type.Params.List[len(r.Type.Params.List)-1]
+			if len(last.Names) > 0 {
+				fP = last.Names[len(last.Names)-1].Name
+			}
+		}
+		le := newLinEnv(pr, r)
+		direct, okDirect := 0, true
+		ast.Inspect(r.Body, func(n ast.Node) bool {
+			ifs, ok := n.(*ast.IfStmt)
+			if !ok {
+				return true
+			}
+			// does the then-branch decode into a slice of the destination parameter?
+			into := false
+			for _, k := range callsIn(ifs.Body) {
+				if r.Pkg.CalleeName(k) == "sliceio.(*decodingReader).decode" && len(k.Args) == 1 {
+					if s, ok := ast.Unparen(k.Args[0]).(*ast.CallExpr); ok && r.Pkg.CalleeName(s) == "frame.Frame.Slice" && strings.HasPrefix(expr(s.Fun), fP+".") {
+						into = true
+					}
+				}
+			}
+			if !into || fP == "" {
+				return true
+			}
+			direct++
+			for _, sign := range []int{-1, 0, 1} { // n - f.Len()
+				v, known := evalCond(ifs.Cond, func(e ast.Expr) (bool, bool) {
+					be, ok := ast.Unparen(e).(*ast.BinaryExpr)
+					if !ok {
+						return false, false
+					}
+					d := lin{}
+					d.addScaled(le.norm(be.X, 0), 1)
+					d.addScaled(le.norm(be.Y, 0), -1)
+					want := lin{nVar: 1, canonText(r, fP+".Len()"): -1}
+					neg := lin{nVar: -1, canonText(r, fP+".Len()"): 1}
+					s := sign
+					switch d.String() {
+					case want.String():
+					case neg.String():
+						s = -sign
+					default:
+						return false, false
+					}
+					switch be.Op {
+					case token.LSS:
+						return s < 0, true
+					case token.LEQ:
+						return s <= 0, true
+					case token.GTR:
+						return s > 0, true
+					case token.GEQ:
+						return s >= 0, true
+					}
+					return false, false
+				})
+				if !known || (sign > 0 && v) {
+					okDirect = false
+				}
+			}
+			return true
+		})
+		c.Check(direct > 0 && okDirect, rq+"|direct-decode-fits-the-view", pr.Pos(lenDecode.Pos()),
+			"a batch is decoded straight into the caller's frame under a condition that does not establish batch length <= frame length (e.g. it tests the capacity): rows behind the view are zeroed and overwritten, and Read returns more rows than the view has")
+	}
 	c.Check(negChecked, rq+"|batch-length-validated", pr.Pos(lenDecode.Pos()),
 		"the decoded batch length sizes a frame without having been tested for < 0: a damaged length makes the reader panic in frame.Slice/Make instead of failing with an error", negTrail...)
 }
